@@ -46,7 +46,7 @@ class Stub:
 class Check:
     def __init__(s, id, props, group, params, wrapper, fn=None, cxx=None, ghosts=(), requires=(), lemmas=(), ensures=(),
                  assigns=None, mode='exact', setup='', tier='quick', fn_re=None, replace=(), loops=None, decl=None,
-                 post='', misuse=False, covers=(), stubs=(), reject_ok=False, solvers=('cadical', 'minisat'), cbmc_flags=(), timeout=600, note='', unwind=None, ret_cxx=None, native=True, objbits=None, config='debug'):
+                 post='', misuse=False, covers=(), stubs=(), reject_ok=False, extra_roots=(), bounded='', solvers=('cadical', 'minisat'), cbmc_flags=(), timeout=600, note='', unwind=None, ret_cxx=None, native=True, objbits=None, config='debug'):
         assert id not in CHECKS, id
         s.id = id; s.props = list(props); s.group = group; s.fn = fn; s.fn_re = fn_re; s.params = list(params)
         s.wrapper = wrapper            # (ret_cxx_type, 'cxx param list', 'cxx body')
@@ -57,7 +57,7 @@ class Check:
         s.assigns = assigns            # None = no assigns clause, else list of targets
         s.mode = mode; s.setup = setup; s.tier = tier; s.replace = list(replace); s.loops = loops or {}
         s.decl = decl or {}; s.post = post; s.misuse = misuse; s.cbmc_flags = list(cbmc_flags); s.timeout = timeout
-        s.covers = list(covers); s.stubs = list(stubs); s.reject_ok = reject_ok; s.solvers = list(solvers); s.note = note; s.unwind = unwind; s.native = native; s.objbits = objbits; s.config = config
+        s.covers = list(covers); s.stubs = list(stubs); s.reject_ok = reject_ok; s.extra_roots = list(extra_roots); s.bounded = bounded; s.solvers = list(solvers); s.note = note; s.unwind = unwind; s.native = native; s.objbits = objbits; s.config = config
         CHECKS[id] = s
 
 # ------------------------------------------------------------------ helpers
@@ -389,11 +389,15 @@ class Runner:
         contracts = {fcn: '\n'.join(ctext)}
         loopc = {(fcn, k): b.for_contract(v) if False else v for k, v in check.loops.items()}
         ptypes = [t.to for t, _ in f.params if isinstance(t, Ptr) and not isinstance(t.to, (Void, Fn_t)) and not (isinstance(t.to, (Named, Lit)) and getattr(gen.dl.body(t.to), 'opaque', False))] + [f.ret] + stub_types
+        xroots = []
+        for xr in check.extra_roots:
+            if '@' + xr not in m.funcs: raise Broken('check %s: extra root %s is not a function of the IR' % (check.id, xr))
+            xroots.append('@' + xr)
         gen.contracts = {} if native else contracts
         gen.loopc = {} if native else loopc
         if native:
             # types and prototypes only: the body is the real g++-compiled code
-            gen.emit([fn], need_types=ptypes)
+            gen.emit([fn] + xroots, need_types=ptypes)
             src = ['#define LL2C_NATIVE 1', '#include <stdio.h>', '#include <stdlib.h>', '#include <signal.h>', '#include <setjmp.h>',
                    ll2c.PRELUDE.replace('extern int EXC;', 'int EXC;')]
             fw = sorted({gen.sname(Named(t)) for t in m.types} | {v[0] for v in gen.litnames.values()})
@@ -402,7 +406,7 @@ class Runner:
             src.append(stub_code(gen))
         else:
             defs = '#define ARITH_%s %s\n' % ({'exact': 'EXACT', 'uf': 'UF', 'narrow': 'NARROW'}[arith], mode.split(':')[1] if ':' in mode else '1')
-            code = gen.emit([fn], need_types=ptypes, after_prelude=defs + ARITH_H + lemma_header() + '\nint EXC;\n' + ''.join('%s %s;\n' % g_ for g_ in check.ghosts), after_protos=stub_code)
+            code = gen.emit([fn] + xroots, need_types=ptypes, after_prelude=defs + ARITH_H + lemma_header() + '\nint EXC;\n' + ''.join('%s %s;\n' % g_ for g_ in check.ghosts), after_protos=stub_code)
             src = [code]
         # ghosts
         # harness
